@@ -2,7 +2,7 @@
    scotland / cfer(-batch) / mpls count reaches without crashing satisfies the Gregory invariant (Proofs/Conserve.v). *)
 From Coq Require Import ZArith List Bool String Lia ZifyBool PArith.
 From Droop Require Import Model.KernelBase Model.Str Model.Arith Model.Prelude Model.State Model.Prims Model.RulesGregory
-  Model.Election Proofs.CmdMeta Proofs.Zlike Proofs.Gregory Proofs.Forward Proofs.Status Proofs.Conserve.
+  Model.Election Proofs.CmdMeta Proofs.Zlike Proofs.Gregory Proofs.Forward Proofs.ForwardCount Proofs.Status Proofs.Conserve.
 Import ListNotations.
 Open Scope Z_scope.
 
@@ -182,6 +182,32 @@ Proof.
       + destruct Hr as [ -> | [ -> | -> ] ]; cbn [rule_cmd]; [apply wigm_seats|apply wigm_prf_seats|apply scotland_seats]; assumption.
       + apply t_do_nc. intros s0 [[H Hc] Hn] Hcf. split; [split; [apply gh_log; assumption|exact Hcf]|]. rewrite cands_log. exact Hn. }
   specialize (Ht fuel _ s k eq_refl He). destruct k; try (destruct Ht as [_ Hn]; exact Hn). congruence.
+Qed.
+
+
+(* ---- ... and in every recorded snapshot: statuses only move forward, so no snapshot shows more winners than the end ---- *)
+Definition nel_sts (x : sts) : Z := nlen (filter (fun a => match fst (snd a) with Elected => true | _ => false end) x).
+Lemma fwdl_nel x y : FwdL x y -> nel_sts x <= nel_sts y.
+Proof.
+  unfold nel_sts, nlen. induction 1 as [|a b x y [_ F] _ IH]; [cbn; lia|]. cbn [filter].
+  destruct a as [ia [sa pa]], b as [ib [sb pb]]. cbn [fst snd] in *. unfold fwd in F. cbn [fst snd] in F.
+  destruct sa, sb; try contradiction; cbn [List.length]; lia.
+Qed.
+Lemma nel_stl (l : list (cand A)) : nel_sts (stl A l) = nlen (filter (in_state A Elected) l).
+Proof.
+  unfold nel_sts, nlen, stl. induction l as [|c l IH]; [reflexivity|]. cbn [map filter fst snd]. unfold in_state at 1.
+  destruct (cst c); cbn [cstate_eqb List.length]; lia.
+Qed.
+
+Theorem count_seats_every_snapshot r pr fuel s : seat_rule r -> wf_profile pr -> cf_nballots cfg = ballot_total pr ->
+  exec (@crashed A) fuel (count_cmd A cfg r) (init_state A cfg pr) = Some (s, Next) ->
+  Forall (fun sn => nel_sts (ssn A sn) <= cf_nseats cfg) (snaps A (actions s)).
+Proof.
+  intros Hr Hwf Hnbt He.
+  assert (Hfin: nlen (electeds A s) <= cf_nseats cfg) by (apply (count_seats r pr fuel s Next Hr Hwf Hnbt He); discriminate).
+  assert (Hnq: not_qpq r) by (destruct Hr as [ -> | [ -> | -> ] ]; exact I).
+  destruct (count_forward A cfg r pr fuel s Hnq (proj1 Hwf) He) as (_ & Hall & _).
+  eapply Forall_impl; [|exact Hall]. intros sn [_ Hf]. pose proof (fwdl_nel _ _ Hf) as Hle. rewrite nel_stl in Hle. unfold electeds in Hfin. lia.
 Qed.
 
 End Count.
